@@ -168,6 +168,8 @@ def oracle(case, out):
     """C04 stated directly on what the real code did."""
     v = []
     if case.get("mode") == "storeput":
+        if isinstance(out, dict) and "panic" in out:
+            return [("panic", "the implementation panicked on this case: %s" % str(out["panic"])[:300])]
         if not isinstance(out, dict) or "puts" not in out:
             return [("harness", "no result: %r" % (out,))]
         for i, (p, r) in enumerate(zip(case["puts"], out["puts"])):
@@ -186,6 +188,8 @@ def oracle(case, out):
             if r["res"] not in ("Ok", "ValueTooLarge"):
                 v.append(("put-error", "put #%d returned %s" % (i, r["res"])))
         return v
+    if isinstance(out, dict) and "panic" in out:
+        return [("panic", "the implementation panicked on this case: %s" % str(out["panic"])[:300])]
     if not isinstance(out, dict) or "results" not in out:
         return [("harness", "no result: %r" % (out,))]
     if not pv.is_serial(case):
